@@ -24,7 +24,9 @@ RULE = ('router: histories of add-rule / remove-rule / deliver-message on Messag
         'of the same process whose proxy holds and cancels subscriptions with the same rule ids. busrule: the rule text given to '
         'Bus.dbus_AddMatch and then matched by the bus router. Non-trivial = a near-miss on exactly one key, a '
         'prefix-sharing sibling path, or a removal between two deliveries; distinct = distinct case JSON. Callbacks return None / True / '
-        'a string / 1 / False / a fired Deferred by turns: what a callback returns has no influence on the other rules.')
+        'a string / 1 / False / a fired Deferred by turns: what a callback returns has no influence on the other rules. On the client '
+        'side the bus refuses the first AddMatch of every fifth rule: addMatch fails and that callback is never invoked. Rule values '
+        'include apostrophes and commas.')
 ASSUMPTIONS = ['sender and arg0namespace are not in the statement and are never constrained',
                'rule values contain no apostrophe or comma (escaping is outside the statement)',
                'callbacks do not mutate the rule set while a message is being routed']
@@ -171,9 +173,11 @@ def run_router(case):
 
 def classify_router(case):
     labels = []
-    keys = [repr(sorted((k, repr(v)) for k, v in r.items() if k != 'raises')) for r in case['rules']]
+    keys = [repr(sorted((k, repr(v)) for k, v in r.items() if k not in ('raises', 'refuse_first'))) for r in case['rules']]
     if len(set(keys)) != len(keys):
         labels.append('identical_rules')
+    if any(r.get('refuse_first') for r in case['rules']):
+        labels.append('addmatch_refused_once')
     nt = False
     active = set()
     delivered = False
@@ -333,6 +337,9 @@ def router_case(draw, tier, types=(4, 4, 4, 4, 1, 2, 3)):
             msgs.append(draw(message(types)))
         else:
             msgs.append(draw(message_near(rules[draw(st.integers(0, len(rules) - 1))], tuple(types))))
+    for r in rules:
+        if draw(st.integers(0, 4)) == 0:
+            r['refuse_first'] = True      # (client side only) the bus answers the first AddMatch for this rule with an error
     ops = [['add', i] for i in range(len(rules))]
     for _ in range(draw(st.integers(1, 10))):
         k = draw(st.sampled_from(['msg', 'msg', 'msg', 'remove', 'add']))
@@ -364,6 +371,7 @@ def run_client(case):
     rules = case['rules']
     active = {}     # idx -> (rule_id, text)
     hits = []
+    refused_once = set()
     try:
         rig.sent_messages()
         for opi, op in enumerate(case['ops']):
@@ -396,6 +404,17 @@ def run_client(case):
                 want = _expected_text_constraints(r)
                 if got != want:
                     out.append(Disc('client.rule-text', 'requested %r, rule text %r expresses %r' % (want, text, got)))
+                if r.get('refuse_first') and idx not in refused_once:
+                    refused_once.add(idx)
+                    # the bus REFUSES the rule (its limits, its own reading of the text): addMatch fails, so this callback
+                    # was never registered and no signal may reach it
+                    N.deliver(rig.conn, R.encode_variant(opi, 3, 500 + opi, {5: sent[0]['serial'],
+                                                                             4: 'org.freedesktop.DBus.Error.LimitsExceeded'},
+                                                         's', ['too many rules']))
+                    if len(res) != 1 or isinstance(res[0], int):
+                        out.append(Disc('client.addmatch-refused-but-result', repr(res)))
+                        break
+                    continue
                 N.deliver(rig.conn, R.encode_message(2, 500 + opi, {5: sent[0]['serial']}))
                 if len(res) != 1 or not isinstance(res[0], int):
                     out.append(Disc('client.addmatch-result', repr(res)))
